@@ -48,7 +48,7 @@ func (e *Engine) newExec(fn *ssa.Function, fc *FuncContract) *Exec {
 	return &Exec{eng: e, fn: fn, fc: fc, mode: mode, heapSorts: map[string]string{}, unsupported: map[string]bool{},
 		uncontracted: map[string]bool{}, inlined: map[string]bool{}, contractsUsed: map[string]bool{},
 		loopCache: map[*ssa.Function]map[*ssa.BasicBlock]*loopInfo{}, nameCache: map[*ssa.Function]map[ssa.Instruction]string{},
-		maxPaths: 6000, params: map[string]Val{}, coverDone: map[string]bool{}}
+		maxPaths: 6000, params: map[string]Val{}, coverDone: map[string]bool{}, entryLocks: map[string]string{}}
 }
 
 // globalFacts: package-level interface variables initialised by a call in the package
@@ -165,6 +165,15 @@ func (e *Engine) VerifyFunction(fn *ssa.Function, fc *FuncContract) *FuncReport 
 			}
 			s.assume(t)
 		}
+		for _, h := range fc.Holds {
+			id, err := x.lockIDOfExpr(s, h.E, x.params, pkgOf(fn))
+			if err != nil {
+				rep.Aborted = fmt.Sprintf("holds: %v", err)
+				return rep
+			}
+			s.locks[id] = h.Mode
+			x.entryLocks[id] = h.Mode
+		}
 		if fc.HasAssign {
 			x.checkFrames = true
 			for _, a := range fc.Assigns {
@@ -224,6 +233,9 @@ func (e *Engine) VerifyFunction(fn *ssa.Function, fc *FuncContract) *FuncReport 
 		}
 		x.checkFreshInvs(s2)
 		for id, m := range s2.locks {
+			if x.entryLocks[id] == m {
+				continue // held by the caller (holds clause)
+			}
 			x.emit(s2, "lock", "lock-held-at-return:"+id, TFalse, "lock "+id+" still held ("+m+") at return")
 		}
 	})
